@@ -13,12 +13,13 @@ os.makedirs(HX)
 sh(f'cp -r /verif/harness/src /verif/harness/Cargo.toml /verif/harness/Cargo.lock {HX}/')
 s = open(f'{HX}/Cargo.toml').read().replace('path = "/repo"', f'path = "{WT}"'); open(f'{HX}/Cargo.toml', 'w').write(s)
 os.makedirs(f'{HX}/.cargo'); open(f'{HX}/.cargo/config.toml', 'w').write(f'[net]\noffline = true\n[build]\ntarget-dir = "{HX}/target"\n')
-checks = [f'C{i:02d}' for i in range(1, 21)]
-path = '/verif/seeded/matrix.json'
+checks = os.environ.get('MATRIX_CHECKS', '').split() or [f'C{i:02d}' for i in range(1, 21)]
+path = os.environ.get('MATRIX_OUT', '/verif/seeded/matrix.json')
 matrix = json.load(open(path)) if os.path.exists(path) else {}
 muts = sorted(d for d in os.listdir('/verif/seeded') if os.path.isdir(f'/verif/seeded/{d}'))
 for m in muts:
     if only and m not in only: continue
+    if m in matrix: continue
     sh(f'git -C {WT} checkout -- .')
     a = sh(f'git -C {WT} apply /verif/seeded/{m}/patch.diff'); assert a.returncode == 0, (m, a.stderr)
     b = sh(f'cd {HX} && nice -n 10 cargo build --release --offline 2>&1 | tail -3')
@@ -29,6 +30,10 @@ for m in muts:
         v = [l for l in r.stdout.splitlines() if l.startswith('VIOLATION')]
         props = sorted(set(l.split()[1].split('=')[1] for l in v))
         row[c] = {'exit': r.returncode, 'violation_properties': props, 'wall_s': round(time.time() - t0, 1)}
+        fs = sorted(glob.glob(f'{HX}/out/replays/*.json'))
+        if fs:
+            d = json.load(open(fs[0]))
+            row[c]['first'] = {'part': d.get('part'), 'observed': d.get('observed'), 'ops': [o.get('text') for o in d.get('ops', [])], 'config': d.get('config')}
         sh(f'rm -rf {HX}/out/replays')
     matrix[m] = row
     json.dump(matrix, open(path, 'w'), indent=1)
